@@ -1030,6 +1030,7 @@ func (e *Env) modTarget(x Expr, out map[string][]string) {
 		case "mapof":
 			xv := e.eval(t.Args[0])
 			if mt, ok := types.Unalias(xv.Typ).Underlying().(*types.Map); ok {
+				(&Frame{vc: vc}).mapComps(mt, e.st) // declare the three components (with their sorts) before they are havocked
 				for _, k := range []string{mapDomComp(mt), mapValComp(mt), mapCardComp(mt)} {
 					out[k] = append(out[k], xv.T)
 				}
